@@ -22,11 +22,11 @@ Lemma f1_after_with_product :
   [Start 1; Finish 1; Start 2; Finish 2]%N.
 Proof. vm_compute. reflexivity. Qed.
 
-(* F3: a cycle closed only through `after` is found by the scheduler, not by create_dag:
-   the build ends with FAILED (1) instead of DAG_FAILED (4); nothing runs, nothing is recorded *)
+(* F3 (repaired in /repo): a cycle closed only through `after` is now rejected while the
+   DAG is created: graph exit code, nothing runs, nothing is recorded *)
 Definition f3_tasks := [tk 1 [] [101] [2]; tk 2 [101] [102] []]%N.
 Lemma f3_after_cycle_exit :
-  wbuild cfg0 f3_tasks (fun _ => NoFault) [] (mkWorld [] []) = mkRes XFailed (mkWorld [] []) [] [].
+  wbuild cfg0 f3_tasks (fun _ => NoFault) [] (mkWorld [] []) = mkRes XDag (mkWorld [] []) [] [].
 Proof. vm_compute. reflexivity. Qed.
 
 (* a deselected `after` target without products is not pulled in by -k *)
